@@ -123,7 +123,7 @@ class Ctx:
             raise RuntimeError("go build %s failed:\n%s%s" % (pkg, so, se))
         return out
 
-    def extract(self, *names):
+    def extract(self, *names, arg=None):
         """Regenerate lean/GqlgenVerif/Gen/<name>.lean from /repo (old files deleted first)."""
         bin_ = os.path.join(CACHE, "extract")
         self.go_build("./extract", bin_)
@@ -131,7 +131,10 @@ class Ctx:
             target = os.path.join(LEAN, "GqlgenVerif", "Gen", n + ".lean")
             if os.path.exists(target):
                 os.remove(target)
-            rc, so, se = sh([bin_, "-repo", REPO, "-what", n, "-out", target], timeout=300)
+            cmd = [bin_, "-repo", REPO, "-what", n, "-out", target]
+            if arg:
+                cmd += ["-arg", arg]
+            rc, so, se = sh(cmd, timeout=300)
             if rc != 0:
                 # the extractor could not recognise the source shape: the regenerated tie is broken
                 return self.broken_tie("extract:" + n, (so + se)[-4000:])
@@ -171,14 +174,12 @@ class Ctx:
             self.cov["discharged"] = 0
             self.proof_failure = failing_decls(self.build_log)
             return False
-        # forbidden tokens
+        # forbidden tokens, in every module the property's theorems transitively import
         bad = []
-        for root, _, files in os.walk(os.path.join(LEAN, "GqlgenVerif")):
-            for f in files:
-                if f.endswith(".lean"):
-                    for i, line in enumerate(strip_comments(open(os.path.join(root, f)).read()).split("\n")):
-                        if FORBIDDEN.search(line):
-                            bad.append("%s:%d: %s" % (f, i + 1, line.strip()))
+        for fpath in import_closure(props):
+            for i, line in enumerate(strip_comments(open(fpath).read()).split("\n")):
+                if FORBIDDEN.search(line):
+                    bad.append("%s:%d: %s" % (os.path.relpath(fpath, LEAN), i + 1, line.strip()))
         if bad:
             self.cov["discharged"] = 0
             self.proof_failure = ["forbidden token: " + b for b in bad]
@@ -329,6 +330,25 @@ def strip_comments(src):
             out.append('""'); i = j + 1; continue
         out.append(src[i]); i += 1
     return "".join(out)
+
+
+def import_closure(modules):
+    """files of every GqlgenVerif module transitively imported by `modules`"""
+    seen, todo, files = set(), list(modules), []
+    while todo:
+        m = todo.pop()
+        if m in seen or not m.startswith("GqlgenVerif."):
+            continue
+        seen.add(m)
+        f = os.path.join(LEAN, m.replace(".", "/") + ".lean")
+        if not os.path.exists(f):
+            continue
+        files.append(f)
+        for line in open(f):
+            mm = re.match(r"\s*import\s+(\S+)", line)
+            if mm:
+                todo.append(mm.group(1))
+    return files
 
 
 def theorem_names(path):
